@@ -95,12 +95,17 @@ func checkNullCheckIndices(c *core.Ctx, rule string) {
 	}
 	info := fn.Info()
 	var loop *ast.RangeStmt
-	ast.Inspect(fn.Decl.Body, func(n ast.Node) bool {
-		if rs, ok := n.(*ast.RangeStmt); ok && strings.HasSuffix(core.ExprStr(rs.X), ".nullCheckIndices") {
-			loop = rs
-		}
-		return true
-	})
+	// the loop may have been moved into a helper that is handed the list (anyNullAt(values, c.nullCheckIndices))
+	for _, bf := range helperClosureBound(p, fn) {
+		bf := bf
+		ast.Inspect(bf.fn.Decl.Body, func(n ast.Node) bool {
+			if rs, ok := n.(*ast.RangeStmt); ok && loop == nil && strings.HasSuffix(resolveText(core.ExprStr(rs.X), bf.binds), ".nullCheckIndices") {
+				loop = rs
+				info = bf.fn.Info()
+			}
+			return true
+		})
+	}
 	if loop == nil {
 		c.Unknown(rule, key, fn.Decl.Pos(), "no loop over nullCheckIndices")
 		return
